@@ -1,14 +1,155 @@
 /-
-  Driver handlers for the File model. `handle op args` returns `none` when the
-  operation is not one of this file's.
+  Driver handlers for the File model: `fenc` (whole-file encryption under a tape),
+  `fdec` (whole-file decryption), `fencw` (Encrypt + Writer against a faulty
+  destination), `wrap1`/`unwrap1` (single stanza).
 -/
 import AgeModel.Wire
+import AgeModel.File
+import AgeModel.Exec.FormatExec
+import AgeModel.Exec.StreamExec
 namespace AgeModel
 namespace Exec
 namespace File
+open AgeModel.Format Wire AgeModel.Stream
+
+/-- SSH wire helpers (execution only) -/
+def readSshString (b : Bytes) : Option (Bytes × Bytes) :=
+  if b.length < 4 then none else
+  let n := ofBe (b.take 4)
+  let r := b.drop 4
+  if r.length < n then none else some (r.take n, r.drop n)
+
+/-- RSA public key from the SSH wire format: string "ssh-rsa", mpint e, mpint n -/
+def rsaPubOfWire (w : Bytes) : Option (Nat × Nat) := do
+  let (_, r) ← readSshString w
+  let (e, r) ← readSshString r
+  let (n, _) ← readSshString r
+  pure (ofBe n, ofBe e)
+
+/-- private key encoding used on the wire protocol: string n, string d (big-endian) -/
+def rsaPrivOfBytes (w : Bytes) : Option (Nat × Nat) := do
+  let (n, r) ← readSshString w
+  let (d, _) ← readSshString r
+  pure (ofBe n, ofBe d)
+
+/-- the concrete primitive suite (execution only; tested against Go in setup) -/
+def concrete : Prims where
+  aead := chacha
+  hkdf := Crypto.hkdfSha256
+  hmac := Crypto.hmacSha256
+  sha256 := Crypto.sha256
+  x25519 := Crypto.x25519
+  basepoint := 9 :: List.replicate 31 0
+  scrypt := fun pw salt logN => Crypto.scrypt pw salt logN 8 1 32
+  oaepEnc := fun pub seed m l =>
+    match rsaPubOfWire pub with
+    | some (n, e) => Crypto.rsaOaepEncrypt n e seed m l
+    | none => none
+  oaepDec := fun priv c l =>
+    match rsaPrivOfBytes priv with
+    | some (n, d) => Crypto.rsaOaepDecrypt n d c l
+    | none => none
+  rsaPair := fun _ _ => True
+
+def parseStanzas (s : String) : Option (List Stanza) :=
+  if s = "-" then some [] else (splitOn s ';').mapM Exec.Format.parseStanza
+
+def parseRecipient (s : String) : Option Recipient :=
+  match splitOn s ':' with
+  | ["x", pub] => (unhex pub).map Recipient.x25519
+  | ["s", pw, logN] => do pure (Recipient.scrypt (← unhex pw) (← nat? logN))
+  | ["e", wire, mont] => do pure (Recipient.sshEd (← unhex wire) (← unhex mont))
+  | ["r", wire] => do let w ← unhex wire; pure (Recipient.sshRsa w w)
+  | ["c", st, labels, fail] => do
+    let ss ← parseStanzas st
+    let f ← bool? fail
+    let ls ← if labels = "none" then some none
+             else if labels = "-" then some (some [])
+             else ((splitOn labels '.').mapM unhex).map some
+    pure (Recipient.custom (fun _ => if f then none else some ss) ls)
+  | _ => none
+
+def parseIdentity (s : String) : Option Identity :=
+  match splitOn s ':' with
+  | ["x", sk] => (unhex sk).map Identity.x25519
+  | ["s", pw, m] => do pure (Identity.scrypt (← unhex pw) (← nat? m))
+  | ["e", wire, sk] => do pure (Identity.sshEd (← unhex wire) (← unhex sk))
+  | ["r", wire, priv] => do pure (Identity.sshRsa (← unhex wire) (← unhex priv))
+  | ["c", "inc"] => some (Identity.custom fun _ => .incorrect)
+  | ["c", "fatal"] => some (Identity.custom fun _ => .fatal)
+  | ["c", "key", k] => (unhex k).map fun k => Identity.custom fun _ => .key k
+  | _ => none
+
+def parseList {α} (f : String → Option α) (s : String) : Option (List α) :=
+  if s = "-" then some [] else (splitOn s '+').mapM f
+
+def encErr : EncErr → String
+  | .noRecipients => "norecipients" | .rand => "rand" | .wrap i => s!"wrap{i}"
+  | .incompatible => "incompatible" | .dst => "dst"
+
+def decErr : DecErr → String
+  | .noIdentities => "noidentities" | .header => "header" | .noMatch n => s!"nomatch{n}"
+  | .fatal i => s!"fatal{i}" | .badMAC => "badmac" | .nonce => "nonce"
+
+def unwrapRes : UnwrapResult → String
+  | .key k => "key " ++ hexOrDash k | .incorrect => "incorrect" | .fatal => "fatal"
 
 def handle (op : String) (args : List String) : Option String :=
   match op, args with
+  | "fenc", [tape, rs, pt] =>
+    some <| match unhex tape, parseList parseRecipient rs, unhex pt with
+    | some tape, some rs, some pt =>
+      match encryptFile concrete chunkSize tape rs pt with
+      | .ok f => "ok " ++ sum f
+      | .error e => "err " ++ encErr e
+    | _, _, _ => "bad-args"
+  | "fdec", [ids, file] =>
+    some <| match parseList parseIdentity ids, unhex file with
+    | some ids, some file =>
+      let (r, c) := decryptInit concrete ids file
+      match r with
+      | .error e => s!"err {decErr e} consulted={c}"
+      | .ok (k, payload) =>
+        let (out, o) := AgeModel.Stream.decrypt chacha chunkSize k payload
+        s!"ok consulted={c} {outcome o} out={sum out}"
+    | _, _ => "bad-args"
+  | "fhdr", [tape, rs] =>   -- header only: file key, stanzas, tape bytes consumed
+    some <| match unhex tape, parseList parseRecipient rs with
+    | some tape, some rs =>
+      match encryptHeader concrete tape rs with
+      | .ok (fk, ss, t) =>
+        s!"ok fk={hexOrDash fk} used={tape.length - t.length} {Exec.Format.renderHeader { stanzas := ss, mac := headerMAC concrete fk ss }}"
+      | .error e => "err " ++ encErr e
+    | _, _ => "bad-args"
+  | "fencw", [tape, rs, segs, plan, ops] =>
+    some <| match unhex tape, parseList parseRecipient rs,
+        (if segs = "-" then some [] else (splitOn segs ',').mapM nat?), Exec.parseOps ops with
+    | some tape, some rs, some segs, some ops =>
+      let go (S : DstSpec) (s0 : S.σ) : String :=
+        let d0 : Dst S := { acc := [], st := s0 }
+        match encryptInit concrete tape rs segs d0 with
+        | (.error e, d) => s!"err {encErr e} acc={sum d.acc}"
+        | (.ok (w, k, _), _) =>
+          let (w', tr) := Exec.stepTrace k chunkSize w ops []
+          s!"ok {";".intercalate tr} acc={sum w'.dst.acc}"
+      match splitOn plan ':' with
+      | ["ok"] => go DstSpec.perfect ()
+      | ["off", l, p, o] =>
+        match nat? l, bool? p, bool? o with
+        | some l, some p, some o => go (DstSpec.atOffset l p o) (false : Bool)
+        | _, _, _ => "bad-plan"
+      | ["call", i, n] =>
+        match nat? i, nat? n with
+        | some i, some n => go (DstSpec.atCall i n) (0 : Nat)
+        | _, _ => "bad-plan"
+      | _ => "bad-plan"
+    | _, _, _, _ => "bad-args"
+  | "unwrap1", [id, st] =>
+    some <| match parseIdentity id, parseStanzas st with
+    | some id, some ss =>
+      let (r, log) := id.unwrapLog concrete ss
+      s!"{unwrapRes r} kdf={log}"
+    | _, _ => "bad-args"
   | _, _ => none
 
 end File
